@@ -154,7 +154,7 @@ def _load_known():
     p = os.path.join(os.path.dirname(os.path.abspath(__file__)), "known_functions.json")
     try:
         d = json.load(open(p))
-        return set(d["functions"]), set(d["names"])
+        return set(d["functions"]), set(d["names"]), dict(d.get("arity", {}))
     except Exception:
         return None
 
@@ -240,7 +240,7 @@ class Program:
             if normalise:
                 from .inline import normalise_module
                 ext = set().union(*[v for k, v in idents.items() if k != modname]) if idents else set()
-                tree, notes = normalise_module(tree, modname, KNOWN[0], KNOWN[1], ext)
+                tree, notes = normalise_module(tree, modname, KNOWN[0], KNOWN[1], ext, KNOWN[2])
                 if notes:
                     self.normalised.setdefault(modname, []).extend(notes)
             rel = os.path.relpath(path, self.root)
